@@ -166,9 +166,15 @@ def scaling(b):
     fn = Fn(FW, "scale_from_world")
     b.add_fn(fn)
     s_ = R("radius_scale")
-    for nl in (1, 2, 3):
+    for nl, gen in [(n_, g_) for n_ in (1, 2, 3) for g_ in (1, 2)]:
         radii = [R(f"r_{k}") for k in range(nl)]
         layers_old = {f"layer{k}": {"radius": radii[k], "type": "x"} for k in range(nl)}
+        if gen == 2:
+            # the source is itself the product of an earlier scale_from_world: its layer configs carry the derived keys (chains of derivations)
+            for k in range(nl):
+                inner = radii[k - 1] if k else sp.Integer(0)
+                layers_old[f"layer{k}"].update(radius_inner=inner, thickness=radii[k] - inner)
+        keys0 = {k_: dict(v_) for k_, v_ in layers_old.items()}
         cfg = {"name": "w", "radius": radii[-1], "layers": layers_old}
         import copy
         rec = {}
@@ -201,11 +207,11 @@ def scaling(b):
             # volume fraction invariant
             V = lambda ro, ri: ro ** 3 - ri ** 3
             goals.append(sp.Eq(V(L["radius"], L["radius_inner"]) * V(radii[-1], 0), V(radii[k], inner_old) * V(new["radius"], 0)))
-        b.add(Obligation(oid=f"{fn.key}::ensures:lengths_scaled[layers={nl}]", fn=fn.key,
+        b.add(Obligation(oid=f"{fn.key}::ensures:lengths_scaled[layers={nl}" + (";source_already_scaled" if gen == 2 else "") + "]", fn=fn.key,
                          clause="ensures every radius / inner radius x s, thickness = radius - radius_inner (contiguous), layer volume fractions unchanged",
                          goal=sp.And(*goals), hyps=pre + ret[0].hyps))
-        unchanged = cfg["radius"] == radii[-1] and all(set(layers_old[f"layer{k}"]) == {"radius", "type"} and layers_old[f"layer{k}"]["radius"] == radii[k] for k in range(nl))
-        ground(b, f"{fn.key}::frame:old_config[layers={nl}]", fn.key, "frame: the source world's config dictionary is not modified by scaling", unchanged)
+        unchanged = cfg["radius"] == radii[-1] and all(layers_old[f"layer{k}"] == keys0[f"layer{k}"] for k in range(nl))
+        ground(b, f"{fn.key}::frame:old_config[layers={nl}" + (";source_already_scaled" if gen == 2 else "") + "]", fn.key, "frame: the source world's config dictionary is not modified by scaling", unchanged)
 
 
 # ---------------------------------------------------------------------------------------------
@@ -282,6 +288,7 @@ def naming_and_frame(b):
         ground(b, f"{fn.key}::frame[{label}]", fn.key, "frame: no dictionary write of build_from_world reaches old_world.config or new_config (writes go to fresh copies only)", not bad, detail=str(bad)[:300])
     helper_frames(b)
     b.replayer(f"{fn.key}::terminates*", _replay_naming)
+    b.replayer("*", replay_generic)
 
 
 def helper_frames(b):
@@ -422,3 +429,53 @@ def bounded_assembly(b, tier, seed):
                           bound=f"first {max_worlds} shipped non-BurnMan configurations, 2 scale factors, derivation chains of length 5 for 4 worlds (a hang is caught by the 900 s timeout of the native run)", result=res if res is not None else out, counted_as_proved=False))
     if res is not None and res.get("bad"):
         b.notes.append(dict(bounded_run_found=res["bad"]))
+
+
+_REPLAY_GENERIC = r'''
+import copy, numpy as np
+from TidalPy.structures.world_builder import build_world, scale_from_world, build_from_world
+from TidalPy.structures.world_builder.config_handler import get_world_configs
+bad = []
+allcfg = get_world_configs()
+names = [k for k, v in sorted(allcfg.items()) if str(v.get("type", "")).lower() != "burnman" and "layers" in v and len(v["layers"]) >= 3][:2] + \
+        [k for k, v in sorted(allcfg.items()) if str(v.get("type", "")).lower() != "burnman" and "layers" in v and len(v["layers"]) == 2][:1]
+def geometry(w, tag):
+    prev = 0.0; vol = 0.0; below = 0.0
+    for L in w.layers:
+        if abs(L.radius_inner - prev) > 1e-9 * w.radius: bad.append((tag, "contiguity", L.name, float(L.radius_inner), float(prev)))
+        if abs(L.thickness - (L.radius - prev)) > 1e-9 * w.radius: bad.append((tag, "thickness", L.name))
+        if abs(L.mass_below - below) > 1e-9 * max(w.mass, 1.0): bad.append((tag, "mass_below != sum of lower layers", L.name, float(L.mass_below), float(below)))
+        if np.any(np.diff(np.asarray(L.mass_below_slices)) < 0): bad.append((tag, "enclosed mass decreases", L.name))
+        prev = L.radius; vol += L.volume; below += L.mass
+    if abs(vol - w.volume) > 1e-9 * w.volume: bad.append((tag, "volume sum"))
+for nm in names:
+    w = build_world(nm)
+    geometry(w, nm)
+    fr0 = [L.volume / w.volume for L in w.layers]
+    w1 = scale_from_world(w, radius_scale=2.0)
+    geometry(w1, nm + "*2")
+    snap = copy.deepcopy(w1.config)
+    w2 = scale_from_world(w1, radius_scale=0.5)
+    if snap != w1.config: bad.append((nm, "scale_from_world mutated the source config"))
+    geometry(w2, nm + "*2*0.5")
+    fr2 = [L.volume / w2.volume for L in w2.layers]
+    if any(abs(a - c) > 1e-9 for a, c in zip(fr0, fr2)): bad.append((nm, "volume fractions changed by a chain of scalings", fr0, fr2))
+    if abs(w2.radius - w.radius) > 1e-9 * w.radius: bad.append((nm, "radius after x2 x0.5"))
+    snap = copy.deepcopy(w1.config)
+    w3 = build_from_world(w1, {})
+    if snap != w1.config: bad.append((nm, "build_from_world mutated the source config"))
+    if w3.name == w1.name: bad.append((nm, "derived name equals source"))
+result = dict(worlds=names, bad=[list(map(str, x)) for x in bad[:8]])
+'''
+
+
+def replay_generic(ob, res):
+    from tpv import native
+    out = native.run(dict(code=_REPLAY_GENERIC), timeout=900)
+    rec = dict(replayed=True, native=out, what="shipped 3-layer and 2-layer worlds: geometry / enclosed-mass invariants, chain scale x2 then x0.5, build_from_world of a scaled world, deep comparison of the source config")
+    if "result" not in out:
+        rec["confirmed"] = True
+        rec["detail"] = "the real code raised or crashed on the chain"
+        return rec
+    rec["confirmed"] = bool(out["result"].get("bad"))
+    return rec
